@@ -11,8 +11,10 @@ use std::collections::HashMap;
 
 pub struct MacroArea;
 
-pub struct Args { pub name: String, pub help: String, pub c1: Vec<(String, String)>, pub c2: Vec<(String, String)>, pub lnames_v: Vec<String>, pub buckets: Vec<f64>, pub reg: Registry }
+pub struct Args { pub name: String, pub help: String, pub c1: Vec<(String, String)>, pub c2: Vec<(String, String)>, pub lnames_v: Vec<String>, pub buckets: Vec<f64>, pub reg: Registry, pub ticks: std::cell::Cell<usize> }
 impl Args {
+    /// called by every argument expression of a generated call site
+    pub fn tick(&self) { self.ticks.set(self.ticks.get() + 1); }
     pub fn c1_map(&self) -> HashMap<&str, &str> { self.c1.iter().map(|(k, v)| (k.as_str(), v.as_str())).collect() }
     pub fn c2_map(&self) -> HashMap<&str, &str> { self.c2.iter().map(|(k, v)| (k.as_str(), v.as_str())).collect() }
     pub fn c1_owned(&self) -> HashMap<String, String> { self.c1.iter().cloned().collect() }
@@ -57,12 +59,15 @@ impl Area for MacroArea {
             let regkind = field(&p, "reg").unwrap();
             let reg = if regkind == "prefixed" { Registry::new_custom(Some("pfx".into()), Some([("rl".to_string(), "v".to_string())].into_iter().collect())).unwrap() } else { Registry::new() };
             let a = Args { name: name.clone(), help: unhex_list(field(&p, "help").unwrap())[0].clone(), c1: parse_pairs(field(&p, "c1").unwrap()), c2: parse_pairs(field(&p, "c2").unwrap()),
-                           lnames_v: unhex_list(field(&p, "lnames").unwrap()), buckets: f64_parse_list(field(&p, "buckets").unwrap()), reg: reg.clone() };
+                           lnames_v: unhex_list(field(&p, "lnames").unwrap()), buckets: f64_parse_list(field(&p, "buckets").unwrap()), reg: reg.clone(), ticks: std::cell::Cell::new(0) };
             let with_reg = site.contains("_with_registry");
             let takes_opts = matches!(site, "register_counter/1" | "register_int_counter/1" | "register_gauge/1" | "register_int_gauge/1" | "register_counter_with_registry/2" | "register_int_counter_with_registry/2" | "register_gauge_with_registry/2" | "register_int_gauge_with_registry/2"
                 | "register_counter_vec/2" | "register_int_counter_vec/2" | "register_gauge_vec/2" | "register_int_gauge_vec/2" | "register_counter_vec_with_registry/3" | "register_int_counter_vec_with_registry/3" | "register_gauge_vec_with_registry/3" | "register_int_gauge_vec_with_registry/3");
             let takes_hopts = matches!(site, "register_histogram/1" | "register_histogram_with_registry/2" | "register_histogram_vec/2" | "register_histogram_vec_with_registry/3");
             let r = std::panic::catch_unwind(std::panic::AssertUnwindSafe(|| call_site(site, comma, &a)));
+            // a faithful shorthand evaluates each of its arguments exactly once (every argument of a generated call site counts its own evaluation)
+            if let Some(n) = site.rsplit('/').next().and_then(|x| x.parse::<usize>().ok()) { if r.is_ok() && a.ticks.get() != n && a.ticks.get() != 0 {
+                fails.push(Failure { class: "argument-evaluated-not-once".into(), detail: format!("{}: {} argument expressions were evaluated {} times in total", line, n, a.ticks.get()) }); } }
             // ---- the explicit call the form stands for (oracle)
             let consts: HashMap<String, String> = if takes_opts { a.merged() } else if takes_hopts { a.c1_owned() } else { HashMap::new() };
             let exp_opts = Opts::new(a.name.clone(), a.help.clone()).const_labels(consts.clone());
